@@ -73,7 +73,7 @@ def run(tier):
         chk.violation("spec:" + inv, {"model": "MC_Refinement", "invariant": inv}, {"tlc": res.trace_text()}, "")
     cases, meta = [], {}
     n = 0
-    nsyn = 60 if tier == "quick" else 700
+    nsyn = 192 if tier == "quick" else 1920
     for k in range(nsyn):
         rows, cols = int(rng.randint(1, 5)), int(rng.randint(2, 8))
         nd = int(rng.randint(2, 7))
@@ -81,7 +81,7 @@ def run(tier):
         tm = ["min", "max"][k % 2]
         style = ["flat", "ties", "spread"][(k // 2) % 3]
         method = ["vfit", "quadratic"][(k // 6) % 2]
-        chain = ["wta", "wta+median", "wta+ref", "wta+median+ref"][(k // 12) % 4]
+        chain = ["wta", "wta+median", "wta+ref", "wta+median+ref", "anysample", "anysample+ref"][(k // 12) % 6]
         costs = gen_int_costs(rng, rows, cols, nd, style)
         dmin = int(rng.randint(-3, 2))
         vm = rng.choice([0, 0, 0, 0, 4, 1, 64, 2, 128, 256, 512], size=(rows, cols))
@@ -93,11 +93,17 @@ def run(tier):
         try:
             d = disparity.AbstractDisparity(disparity_method="wta", invalid_disparity=[-9999, float("nan")][k % 2]).to_disp(cv)
             d["validity_mask"].data[:] = vm.astype(np.uint16)
+            if "anysample" in chain:
+                # any sampled disparity at a valid pixel (what a median filter may leave: a neighbour's sample)
+                dm = d["disparity_map"].data
+                validpx = (vm & 0b1111000011) == 0
+                rnd = (dmin + rng.randint(0, nd, size=(rows, cols)) / float(s)).astype(np.float32)
+                dm[validpx] = rnd[validpx]
             if "median" in chain:
                 if rows < 3 or cols < 3:
                     continue      # (the median filter's own behaviour on tiny maps is C10's business)
                 pfilter.AbstractFilter(cfg={"filter_method": "median", "filter_size": 3}, image_shape=(rows, cols), step=1).filter_disparity(d)
-            stages = [method] if chain in ("wta", "wta+median") else [["vfit", "quadratic"][k % 2], method]
+            stages = [method] if chain in ("wta", "wta+median", "anysample") else [["vfit", "quadratic"][k % 2], method]
             for si, mth in enumerate(stages):
                 before_disp = d["disparity_map"].data.copy()
                 before_vm = d["validity_mask"].data.copy()
